@@ -1,42 +1,591 @@
+/-
+Proofs for `Kanzi/Properties/C07.lean` (block hand-off protocol).  Core Lean only.
+
+Structure: one inductive invariant per side (`EncInv`, `DecInv`), proved for the initial state and
+preserved by every `Step` (case split on the counter, then on the event; each of the resulting
+goals is closed by `grind` after unfolding `upd`).  All safety theorems are projections of the
+invariant; progress uses the invariant to find the task whose turn it is; the measure lemmas,
+`*_cancel_stable`, `firstFailed_*` and `runTrace_sound` need no reachability.
+-/
 import Kanzi.Model.Protocol
 namespace Kanzi.Protocol
 
 def holds' (p : Pc) : Prop := p = .crit ∨ p = .io
 
+/-! ## Encode side: invariant -/
+
+structure EncInv (N : Nat) (s : St) : Prop where
+  idle : ∀ i, N ≤ i → s.pc i = .work
+  low : ∀ c, s.ctr = some c → ∀ i, i < c → s.pc i = .fin ∨ s.pc i = .done
+  high : ∀ c, s.ctr = some c → ∀ i, c < i → s.pc i = .work ∨ s.pc i = .wait ∨ s.pc i = .dErr
+  cur : ∀ c, s.ctr = some c →
+    s.pc c = .work ∨ s.pc c = .wait ∨ s.pc c = .crit ∨ s.pc c = .io ∨ s.pc c = .dOk ∨ s.pc c = .dErr
+  len : ∀ c, s.ctr = some c →
+    (s.pc c = .dOk → s.log.length = c + 1) ∧ (s.pc c ≠ .dOk → s.log.length = c)
+  mutex : ∀ i j, (s.pc i = .crit ∨ s.pc i = .io) → (s.pc j = .crit ∨ s.pc j = .io) → i = j
+  hlen : ∀ i, (s.pc i = .crit ∨ s.pc i = .io) → s.log.length = i
+  sorted : s.log = List.range' 1 s.log.length
+  bound : s.log.length ≤ N
+  derr : ∀ i, s.pc i = .dErr → s.failed i = true
+  cancelled : s.ctr = none → ∃ i, i < N ∧ s.failed i = true
+  nopub : ∀ i, s.pc i ≠ .pub ∧ s.pc i ≠ .post
+  cf : ∀ i, s.critFail i = true →
+    s.log.length = i ∧ (∀ j, ¬ (s.pc j = .crit ∨ s.pc j = .io)) ∧
+      (s.ctr = none ∨ (s.ctr = some i ∧ s.pc i = .dErr))
+
+theorem encInv_init (N : Nat) : EncInv N encInit := by
+  constructor <;> simp [encInit]
+
+theorem EncInv.holder {N : Nat} {s : St} (hI : EncInv N s) {c i : Nat} (hc : s.ctr = some c)
+    (hp : s.pc i = .crit ∨ s.pc i = .io ∨ s.pc i = .dOk) : i = c := by
+  have h1 := hI.low c hc i
+  have h2 := hI.high c hc i
+  rcases Nat.lt_trichotomy i c with h | h | h
+  · have := h1 h; grind
+  · exact h
+  · have := h2 h; grind
+
+theorem log_snoc {l : List Nat} {i : Nat} (hs : l = List.range' 1 l.length) (hl : l.length = i) :
+    l ++ [i + 1] = List.range' 1 (l ++ [i + 1]).length := by
+  rw [List.length_append, List.length_singleton, List.range'_concat, ← hs, hl]
+  simp [Nat.add_comm]
+
+theorem encInv_step_none {N : Nat} {s t : St} (hI : EncInv N s) (e : Ev) (hN : e.task < N)
+    (he : encStep s e = some t) (hc : s.ctr = none) : EncInv N t := by
+  obtain ⟨idle, low, high, cur, len, mutex, hlen, sorted, bound, derr, cancelled, nopub, cf⟩ := hI
+  have hsn := fun i => log_snoc (i := i) sorted
+  clear low high cur len
+  cases e <;> simp only [Ev.task] at hN <;> simp only [encStep, hc, cas] at he
+  all_goals repeat' split at he
+  all_goals cases he
+  all_goals constructor <;> simp only [upd] <;> grind
+
+theorem encInv_step_some {N : Nat} {s t : St} (hI : EncInv N s) (e : Ev) (hN : e.task < N)
+    (he : encStep s e = some t) (c : Nat) (hc : s.ctr = some c) : EncInv N t := by
+  obtain ⟨idle, low, high, cur, len, mutex, hlen, sorted, bound, derr, cancelled, nopub, cf⟩ := hI
+  have hsn := fun i => log_snoc (i := i) sorted
+  have low := low c hc
+  have high := high c hc
+  have cur := cur c hc
+  have len := len c hc
+  cases e <;> simp only [Ev.task] at hN <;> simp only [encStep, hc, cas] at he
+  all_goals repeat' split at he
+  all_goals cases he
+  all_goals constructor <;> simp only [upd] <;> grind
+
+theorem encInv_step {N : Nat} {s t : St} (hI : EncInv N s) (hs : Step encStep N s t) : EncInv N t := by
+  obtain ⟨e, hN, he⟩ := hs
+  obtain hc | ⟨c, hc⟩ : s.ctr = none ∨ ∃ c, s.ctr = some c := by cases s.ctr <;> simp
+  · exact encInv_step_none hI e hN he hc
+  · exact encInv_step_some hI e hN he c hc
+
+theorem enc_inv {N : Nat} {s : St} (h : Reach encStep encInit N s) : EncInv N s := by
+  induction h with
+  | init => exact encInv_init N
+  | step _ hs ih => exact encInv_step ih hs
+
 theorem enc_mutex (N : Nat) (s : St) (h : Reach encStep encInit N s) (i j : Nat)
-    (hi : s.pc i = .crit ∨ s.pc i = .io) (hj : s.pc j = .crit ∨ s.pc j = .io) : i = j := by sorry
-theorem dec_mutex (N : Nat) (s : St) (h : Reach decStep decInit N s) (i j : Nat)
-    (hi : (s.pc i = .crit ∨ s.pc i = .io) ∨ s.pc i = .pub) (hj : (s.pc j = .crit ∨ s.pc j = .io) ∨ s.pc j = .pub) : i = j := by sorry
+    (hi : s.pc i = .crit ∨ s.pc i = .io) (hj : s.pc j = .crit ∨ s.pc j = .io) : i = j :=
+  (enc_inv h).mutex i j hi hj
+
 theorem enc_ordered (N : Nat) (s : St) (h : Reach encStep encInit N s) :
-    s.log = List.range' 1 s.log.length ∧ s.log.length ≤ N := by sorry
-theorem dec_ordered (N : Nat) (s : St) (h : Reach decStep decInit N s) :
-    s.log = List.range' 1 s.log.length ∧ s.log.length ≤ N := by sorry
-theorem enc_progress (N : Nat) (s : St) (h : Reach encStep encInit N s) (hnd : ¬ allDone N s) :
-    ∃ t, Step encStep N s t ∧ measure N t < measure N s := by sorry
-theorem dec_progress (N : Nat) (s : St) (h : Reach decStep decInit N s) (hnd : ¬ allDone N s) :
-    ∃ t, Step decStep N s t ∧ measure N t < measure N s := by sorry
-theorem enc_measure_mono (N : Nat) (s t : St) (h : Step encStep N s t) : measure N t ≤ measure N s := by sorry
-theorem dec_measure_mono (N : Nat) (s t : St) (h : Step decStep N s t) : measure N t ≤ measure N s := by sorry
-theorem enc_measure_init (N : Nat) : measure N encInit = 9 * N := by sorry
-theorem dec_measure_init (N : Nat) : measure N decInit = 8 * N := by sorry
-theorem enc_cancel_stable (N : Nat) (s t : St) (h : Step encStep N s t) (hc : s.ctr = none) :
-    t.ctr = none ∧ (∀ i, (t.pc i = .crit ∨ t.pc i = .io) → (s.pc i = .crit ∨ s.pc i = .io)) ∧ t.log.length ≤ s.log.length + 1 := by sorry
-theorem dec_cancel_stable (N : Nat) (s t : St) (h : Step decStep N s t) (hc : s.ctr = none) :
-    t.ctr = none ∧ (∀ i, (t.pc i = .crit ∨ t.pc i = .io) → (s.pc i = .crit ∨ s.pc i = .io)) := by sorry
+    s.log = List.range' 1 s.log.length ∧ s.log.length ≤ N :=
+  ⟨(enc_inv h).sorted, (enc_inv h).bound⟩
+
 theorem enc_crit_failure_blocks (N : Nat) (s : St) (h : Reach encStep encInit N s) (i : Nat)
-    (hf : s.critFail i = true) : s.log.length ≤ i ∧ ∀ j, i < j → ¬ (s.pc j = .crit ∨ s.pc j = .io) := by sorry
-theorem dec_crit_failure_blocks (N : Nat) (s : St) (h : Reach decStep decInit N s) (i : Nat)
-    (hf : s.critFail i = true ∨ s.eos i = true) : s.log.length ≤ i ∧ ∀ j, i < j → ¬ (s.pc j = .crit ∨ s.pc j = .io) := by sorry
-theorem firstFailed_isSome (N : Nat) (f : Nat → Bool) :
-    (firstFailed N f).isSome ↔ ∃ i, i < N ∧ f i = true := by sorry
-theorem firstFailed_spec (N : Nat) (f : Nat → Bool) (i : Nat) (h : firstFailed N f = some i) :
-    i < N ∧ f i = true ∧ ∀ j, j < i → f j = false := by sorry
+    (hf : s.critFail i = true) : s.log.length ≤ i ∧ ∀ j, i < j → ¬ (s.pc j = .crit ∨ s.pc j = .io) := by
+  obtain ⟨h1, h2, _⟩ := (enc_inv h).cf i hf
+  exact ⟨Nat.le_of_eq h1, fun j _ => h2 j⟩
+
 theorem enc_terminal_ok (N : Nat) (s : St) (h : Reach encStep encInit N s) (hd : allDone N s)
-    (hok : ∀ i, i < N → s.failed i = false) : s.log = List.range' 1 N ∧ s.ctr = some N := by sorry
+    (hok : ∀ i, i < N → s.failed i = false) : s.log = List.range' 1 N ∧ s.ctr = some N := by
+  have hI := enc_inv h
+  obtain hc | ⟨c, hc⟩ : s.ctr = none ∨ ∃ c, s.ctr = some c := by cases s.ctr <;> simp
+  · obtain ⟨i, hi, hf⟩ := hI.cancelled hc
+    rw [hok i hi] at hf; cases hf
+  · have hcN : c = N := by
+      rcases Nat.lt_trichotomy c N with hlt | heq | hgt
+      · have := hI.cur c hc
+        have := hd c hlt
+        grind
+      · exact heq
+      · have := hI.low c hc N hgt
+        have := hI.idle N (Nat.le_refl N)
+        grind
+    subst hcN
+    have hw := hI.idle c (Nat.le_refl c)
+    have hl := (hI.len c hc).2 (by rw [hw]; decide)
+    refine ⟨?_, hc⟩
+    have := hI.sorted
+    rw [hl] at this
+    exact this
+
+
+/-! ## Decode side: invariant -/
+
+structure DecInv (N : Nat) (s : St) : Prop where
+  idle : ∀ i, N ≤ i → s.pc i = .wait
+  low : ∀ c, s.ctr = some c → ∀ i, i < c →
+    s.pc i = .post ∨ s.pc i = .dOk ∨ s.pc i = .dErr ∨ s.pc i = .fin ∨ s.pc i = .done
+  high : ∀ c, s.ctr = some c → ∀ i, c < i → s.pc i = .wait
+  cur : ∀ c, s.ctr = some c →
+    s.pc c = .wait ∨ s.pc c = .crit ∨ s.pc c = .io ∨ s.pc c = .pub ∨ s.pc c = .dErr
+  len : ∀ c, s.ctr = some c →
+    (s.pc c = .pub → s.log.length = c + 1) ∧ (s.pc c ≠ .pub → s.log.length = c)
+  mutex : ∀ i j, ((s.pc i = .crit ∨ s.pc i = .io) ∨ s.pc i = .pub) →
+    ((s.pc j = .crit ∨ s.pc j = .io) ∨ s.pc j = .pub) → i = j
+  hlen : ∀ i, (s.pc i = .crit ∨ s.pc i = .io) → s.log.length = i
+  plen : ∀ i, s.pc i = .pub → s.log.length = i + 1
+  sorted : s.log = List.range' 1 s.log.length
+  bound : s.log.length ≤ N
+  derr : ∀ i, s.pc i = .dErr → s.failed i = true ∨ s.eos i = true ∨ s.ctr = none
+  cancelled : s.ctr = none → ∃ i, i < N ∧ (s.failed i = true ∨ s.eos i = true)
+  nowork : ∀ i, s.pc i ≠ .work
+  cf : ∀ i, (s.critFail i = true ∨ s.eos i = true) →
+    s.log.length = i ∧ (∀ j, ¬ ((s.pc j = .crit ∨ s.pc j = .io) ∨ s.pc j = .pub)) ∧
+      (s.ctr = none ∨ (s.ctr = some i ∧ s.pc i = .dErr))
+
+theorem decInv_init (N : Nat) : DecInv N decInit := by
+  constructor <;> simp [decInit]
+
+theorem decInv_step_none {N : Nat} {s t : St} (hI : DecInv N s) (e : Ev) (hN : e.task < N)
+    (he : decStep s e = some t) (hc : s.ctr = none) : DecInv N t := by
+  obtain ⟨idle, low, high, cur, len, mutex, hlen, plen, sorted, bound, derr, cancelled, nowork, cf⟩ := hI
+  have hsn := fun i => log_snoc (i := i) sorted
+  clear low high cur len
+  cases e <;> simp only [Ev.task] at hN <;> simp only [decStep, hc, cas] at he
+  all_goals repeat' split at he
+  all_goals cases he
+  all_goals constructor <;> (try simp only [upd]) <;> grind
+
+/-- splits the events in two groups (only to keep each preservation lemma small) -/
+def lateEv : Ev → Bool
+  | .fail _ | .postDone _ | .dpub _ | .cancel _ | .exit _ | .pub _ => true
+  | _ => false
+
+theorem decInv_step_some_a {N : Nat} {s t : St} (hI : DecInv N s) (e : Ev) (hN : e.task < N)
+    (he : decStep s e = some t) (c : Nat) (hc : s.ctr = some c) (hk : lateEv e = false) : DecInv N t := by
+  obtain ⟨idle, low, high, cur, len, mutex, hlen, plen, sorted, bound, derr, cancelled, nowork, cf⟩ := hI
+  have hsn := fun i => log_snoc (i := i) sorted
+  have low := low c hc
+  have high := high c hc
+  have cur := cur c hc
+  have len := len c hc
+  cases e <;> first | (cases hk; done) | skip
+  all_goals simp only [Ev.task] at hN
+  all_goals simp only [decStep, hc] at he
+  all_goals repeat' split at he
+  all_goals cases he
+  all_goals constructor <;> (try simp only [upd]) <;> grind
+
+theorem decInv_step_some_b {N : Nat} {s t : St} (hI : DecInv N s) (e : Ev) (hN : e.task < N)
+    (he : decStep s e = some t) (c : Nat) (hc : s.ctr = some c) (hk : lateEv e = true) : DecInv N t := by
+  obtain ⟨idle, low, high, cur, len, mutex, hlen, plen, sorted, bound, derr, cancelled, nowork, cf⟩ := hI
+  have low := low c hc
+  have high := high c hc
+  have cur := cur c hc
+  have len := len c hc
+  cases e <;> first | (cases hk; done) | skip
+  all_goals simp only [Ev.task] at hN
+  all_goals simp only [decStep, hc, cas] at he
+  all_goals repeat' split at he
+  all_goals cases he
+  all_goals constructor <;> (try simp only [upd]) <;> grind
+
+theorem decInv_step {N : Nat} {s t : St} (hI : DecInv N s) (hs : Step decStep N s t) : DecInv N t := by
+  obtain ⟨e, hN, he⟩ := hs
+  obtain hc | ⟨c, hc⟩ : s.ctr = none ∨ ∃ c, s.ctr = some c := by cases s.ctr <;> simp
+  · exact decInv_step_none hI e hN he hc
+  · cases hk : lateEv e
+    · exact decInv_step_some_a hI e hN he c hc hk
+    · exact decInv_step_some_b hI e hN he c hc hk
+
+theorem dec_inv {N : Nat} {s : St} (h : Reach decStep decInit N s) : DecInv N s := by
+  induction h with
+  | init => exact decInv_init N
+  | step _ hs ih => exact decInv_step ih hs
+
+theorem dec_mutex (N : Nat) (s : St) (h : Reach decStep decInit N s) (i j : Nat)
+    (hi : (s.pc i = .crit ∨ s.pc i = .io) ∨ s.pc i = .pub)
+    (hj : (s.pc j = .crit ∨ s.pc j = .io) ∨ s.pc j = .pub) : i = j :=
+  (dec_inv h).mutex i j hi hj
+
+theorem dec_ordered (N : Nat) (s : St) (h : Reach decStep decInit N s) :
+    s.log = List.range' 1 s.log.length ∧ s.log.length ≤ N :=
+  ⟨(dec_inv h).sorted, (dec_inv h).bound⟩
+
+theorem dec_crit_failure_blocks (N : Nat) (s : St) (h : Reach decStep decInit N s) (i : Nat)
+    (hf : s.critFail i = true ∨ s.eos i = true) :
+    s.log.length ≤ i ∧ ∀ j, i < j → ¬ (s.pc j = .crit ∨ s.pc j = .io) := by
+  obtain ⟨h1, h2, _⟩ := (dec_inv h).cf i hf
+  exact ⟨Nat.le_of_eq h1, fun j _ hj => h2 j (Or.inl hj)⟩
+
 theorem dec_terminal_ok (N : Nat) (s : St) (h : Reach decStep decInit N s) (hd : allDone N s)
     (hok : ∀ i, i < N → s.failed i = false ∧ s.eos i = false) :
-    s.log = List.range' 1 N ∧ s.ctr = some N := by sorry
+    s.log = List.range' 1 N ∧ s.ctr = some N := by
+  have hI := dec_inv h
+  obtain hc | ⟨c, hc⟩ : s.ctr = none ∨ ∃ c, s.ctr = some c := by cases s.ctr <;> simp
+  · obtain ⟨i, hi, hf⟩ := hI.cancelled hc
+    have := hok i hi
+    grind
+  · have hcN : c = N := by
+      rcases Nat.lt_trichotomy c N with hlt | heq | hgt
+      · have := hI.cur c hc
+        have := hd c hlt
+        grind
+      · exact heq
+      · have := hI.low c hc N hgt
+        have := hI.idle N (Nat.le_refl N)
+        grind
+    subst hcN
+    have hw := hI.idle c (Nat.le_refl c)
+    have hl := (hI.len c hc).2 (by rw [hw]; decide)
+    refine ⟨?_, hc⟩
+    have := hI.sorted
+    rw [hl] at this
+    exact this
+
+
+/-! ## Measure -/
+
+theorem measure_congr (N : Nat) (s s' : St) (h : ∀ j, j < N → s'.pc j = s.pc j) :
+    measure N s' = measure N s := by
+  induction N with
+  | zero => rfl
+  | succ n ih =>
+    simp only [measure]
+    rw [ih (fun j hj => h j (by omega)), h n (by omega)]
+
+theorem measure_step (N : Nat) (s s' : St) (i : Nat) (hi : i < N)
+    (h : ∀ j, j ≠ i → s'.pc j = s.pc j) :
+    measure N s' + rank (s.pc i) = measure N s + rank (s'.pc i) := by
+  induction N with
+  | zero => omega
+  | succ n ih =>
+    simp only [measure]
+    by_cases hin : i = n
+    · subst hin
+      have := measure_congr i s s' (fun j hj => h j (by omega))
+      omega
+    · have := ih (by omega)
+      rw [h n (by omega)]
+      omega
+
+theorem measure_le_of_rank (N : Nat) (s t : St) (i : Nat) (hi : i < N)
+    (h : ∀ j, j ≠ i → t.pc j = s.pc j) (hr : rank (t.pc i) ≤ rank (s.pc i)) :
+    measure N t ≤ measure N s := by
+  have := measure_step N s t i hi h; omega
+
+theorem step_decr (step : St → Ev → Option St) (N : Nat) (s t : St) (e : Ev) (hN : e.task < N)
+    (he : step s e = some t) (hf : ∀ j, j ≠ e.task → t.pc j = s.pc j)
+    (hr : rank (t.pc e.task) < rank (s.pc e.task)) :
+    ∃ t, Step step N s t ∧ measure N t < measure N s :=
+  ⟨t, ⟨e, hN, he⟩, by have := measure_step N s t e.task hN hf; omega⟩
+
+theorem enc_measure_init (N : Nat) : measure N encInit = 9 * N := by
+  induction N with
+  | zero => rfl
+  | succ n ih => simp only [measure, ih]; simp [encInit, rank]; omega
+
+theorem dec_measure_init (N : Nat) : measure N decInit = 8 * N := by
+  induction N with
+  | zero => rfl
+  | succ n ih => simp only [measure, ih]; simp [decInit, rank]; omega
+
+theorem enc_step_rank {s t : St} {e : Ev} (he : encStep s e = some t) :
+    (∀ j, j ≠ e.task → t.pc j = s.pc j) ∧ rank (t.pc e.task) ≤ rank (s.pc e.task) := by
+  cases e <;> simp only [encStep] at he
+  all_goals repeat' split at he
+  all_goals cases he
+  all_goals simp only [Ev.task]
+  all_goals constructor
+  all_goals (try (intro j hj; simp [upd, hj]))
+  all_goals simp only [upd_same]
+  all_goals grind [rank]
+
+theorem dec_step_rank {s t : St} {e : Ev} (he : decStep s e = some t) :
+    (∀ j, j ≠ e.task → t.pc j = s.pc j) ∧ rank (t.pc e.task) ≤ rank (s.pc e.task) := by
+  cases e <;> simp only [decStep] at he
+  all_goals repeat' split at he
+  all_goals cases he
+  all_goals simp only [Ev.task]
+  all_goals constructor
+  all_goals (try (intro j hj; simp [upd, hj]))
+  all_goals (try simp only [upd_same])
+  all_goals grind [rank]
+
+theorem enc_measure_mono (N : Nat) (s t : St) (h : Step encStep N s t) : measure N t ≤ measure N s := by
+  obtain ⟨e, hN, he⟩ := h
+  obtain ⟨h1, h2⟩ := enc_step_rank he
+  exact measure_le_of_rank N s t e.task hN h1 h2
+
+theorem dec_measure_mono (N : Nat) (s t : St) (h : Step decStep N s t) : measure N t ≤ measure N s := by
+  obtain ⟨e, hN, he⟩ := h
+  obtain ⟨h1, h2⟩ := dec_step_rank he
+  exact measure_le_of_rank N s t e.task hN h1 h2
+
+/-! ## Progress -/
+
+/-- a task that is not spinning on somebody else's turn has an enabled, measure-decreasing step -/
+theorem enc_enabled (N : Nat) (s : St) (i : Nat) (hi : i < N) (hd : s.pc i ≠ .done)
+    (hp : s.pc i ≠ .pub ∧ s.pc i ≠ .post)
+    (hw : s.pc i = .wait → s.ctr = none ∨ s.ctr = some i) :
+    ∃ t, Step encStep N s t ∧ measure N t < measure N s := by
+  have hf : ∀ p : Pc, ∀ j, j ≠ i → upd s.pc i p j = s.pc j := fun p j hj => upd_other _ _ _ _ hj
+  cases h : s.pc i with
+  | work =>
+    exact step_decr encStep N s { s with pc := upd s.pc i .dErr, failed := upd s.failed i true }
+      (.fail i) hi (by simp [encStep, h]) (hf _) (by simp [Ev.task, h, rank])
+  | wait =>
+    rcases hw h with hc | hc
+    · exact step_decr encStep N s { s with pc := upd s.pc i .dOk }
+        (.load i none) hi (by simp [encStep, h, hc]) (hf _) (by simp [Ev.task, h, rank])
+    · exact step_decr encStep N s { s with pc := upd s.pc i .crit }
+        (.load i (some i)) hi (by simp [encStep, h, hc]) (hf _) (by simp [Ev.task, h, rank])
+  | crit =>
+    exact step_decr encStep N s { s with pc := upd s.pc i .io }
+      (.ioBegin i) hi (by simp [encStep, h]) (hf _) (by simp [Ev.task, h, rank])
+  | io =>
+    exact step_decr encStep N s { s with pc := upd s.pc i .dOk, log := s.log ++ [i + 1] }
+      (.ioEnd i) hi (by simp [encStep, h]) (hf _) (by simp [Ev.task, h, rank])
+  | pub => exact absurd h hp.1
+  | post => exact absurd h hp.2
+  | dOk =>
+    exact step_decr encStep N s { s with pc := upd s.pc i .fin, ctr := cas s.ctr i }
+      (.dpub i) hi (by simp [encStep, h]) (hf _) (by simp [Ev.task, h, rank])
+  | dErr =>
+    exact step_decr encStep N s { s with pc := upd s.pc i .fin, ctr := none }
+      (.cancel i) hi (by simp [encStep, h]) (hf _) (by simp [Ev.task, h, rank])
+  | fin =>
+    exact step_decr encStep N s { s with pc := upd s.pc i .done }
+      (.exit i) hi (by simp [encStep, h]) (hf _) (by simp [Ev.task, h, rank])
+  | done => exact absurd h hd
+
+theorem enc_progress (N : Nat) (s : St) (h : Reach encStep encInit N s) (hnd : ¬ allDone N s) :
+    ∃ t, Step encStep N s t ∧ measure N t < measure N s := by
+  have hI := enc_inv h
+  have ⟨i, hi, hpi⟩ : ∃ i, i < N ∧ s.pc i ≠ .done := by
+    apply Classical.byContradiction
+    intro hne
+    exact hnd (fun i hi => Classical.byContradiction fun hp => hne ⟨i, hi, hp⟩)
+  by_cases hgood : s.pc i = .wait → s.ctr = none ∨ s.ctr = some i
+  · exact enc_enabled N s i hi hpi (hI.nopub i) hgood
+  · -- task i spins: the counter is `some c`, c ≠ i; task c can move
+    have hwi : s.pc i = .wait := Classical.byContradiction fun hp => hgood (fun h => absurd h hp)
+    obtain hc | ⟨c, hc⟩ : s.ctr = none ∨ ∃ c, s.ctr = some c := by cases s.ctr <;> simp
+    · exact absurd (fun _ => Or.inl hc) hgood
+    · have hci : c < i := by
+        rcases Nat.lt_trichotomy c i with hlt | heq | hgt
+        · exact hlt
+        · subst heq; exact absurd (fun _ => Or.inr hc) hgood
+        · have := hI.low c hc i hgt; grind
+      have hcur := hI.cur c hc
+      exact enc_enabled N s c (by omega) (by grind) (hI.nopub c) (fun _ => Or.inr hc)
+
+theorem dec_enabled (N : Nat) (s : St) (i : Nat) (hi : i < N) (hd : s.pc i ≠ .done)
+    (hp : s.pc i ≠ .work)
+    (hw : s.pc i = .wait → s.ctr = none ∨ s.ctr = some i) :
+    ∃ t, Step decStep N s t ∧ measure N t < measure N s := by
+  have hf : ∀ p : Pc, ∀ j, j ≠ i → upd s.pc i p j = s.pc j := fun p j hj => upd_other _ _ _ _ hj
+  cases h : s.pc i with
+  | work => exact absurd h hp
+  | wait =>
+    rcases hw h with hc | hc
+    · exact step_decr decStep N s { s with pc := upd s.pc i .dErr }
+        (.load i none) hi (by simp [decStep, h, hc]) (hf _) (by simp [Ev.task, h, rank])
+    · exact step_decr decStep N s { s with pc := upd s.pc i .crit }
+        (.load i (some i)) hi (by simp [decStep, h, hc]) (hf _) (by simp [Ev.task, h, rank])
+  | crit =>
+    exact step_decr decStep N s { s with pc := upd s.pc i .io }
+      (.ioBegin i) hi (by simp [decStep, h]) (hf _) (by simp [Ev.task, h, rank])
+  | io =>
+    exact step_decr decStep N s { s with pc := upd s.pc i .pub, log := s.log ++ [i + 1] }
+      (.ioEnd i) hi (by simp [decStep, h]) (hf _) (by simp [Ev.task, h, rank])
+  | pub =>
+    exact step_decr decStep N s { s with pc := upd s.pc i .post, ctr := cas s.ctr i }
+      (.pub i) hi (by simp [decStep, h]) (hf _) (by simp [Ev.task, h, rank])
+  | post =>
+    exact step_decr decStep N s { s with pc := upd s.pc i .dOk }
+      (.postDone i) hi (by simp [decStep, h]) (hf _) (by simp [Ev.task, h, rank])
+  | dOk =>
+    exact step_decr decStep N s { s with pc := upd s.pc i .fin, ctr := cas s.ctr i }
+      (.dpub i) hi (by simp [decStep, h]) (hf _) (by simp [Ev.task, h, rank])
+  | dErr =>
+    exact step_decr decStep N s { s with pc := upd s.pc i .fin, ctr := none }
+      (.cancel i) hi (by simp [decStep, h]) (hf _) (by simp [Ev.task, h, rank])
+  | fin =>
+    exact step_decr decStep N s { s with pc := upd s.pc i .done }
+      (.exit i) hi (by simp [decStep, h]) (hf _) (by simp [Ev.task, h, rank])
+  | done => exact absurd h hd
+
+theorem dec_progress (N : Nat) (s : St) (h : Reach decStep decInit N s) (hnd : ¬ allDone N s) :
+    ∃ t, Step decStep N s t ∧ measure N t < measure N s := by
+  have hI := dec_inv h
+  have ⟨i, hi, hpi⟩ : ∃ i, i < N ∧ s.pc i ≠ .done := by
+    apply Classical.byContradiction
+    intro hne
+    exact hnd (fun i hi => Classical.byContradiction fun hp => hne ⟨i, hi, hp⟩)
+  by_cases hgood : s.pc i = .wait → s.ctr = none ∨ s.ctr = some i
+  · exact dec_enabled N s i hi hpi (hI.nowork i) hgood
+  · have hwi : s.pc i = .wait := Classical.byContradiction fun hp => hgood (fun h => absurd h hp)
+    obtain hc | ⟨c, hc⟩ : s.ctr = none ∨ ∃ c, s.ctr = some c := by cases s.ctr <;> simp
+    · exact absurd (fun _ => Or.inl hc) hgood
+    · have hci : c < i := by
+        rcases Nat.lt_trichotomy c i with hlt | heq | hgt
+        · exact hlt
+        · subst heq; exact absurd (fun _ => Or.inr hc) hgood
+        · have := hI.low c hc i hgt; grind
+      have hcur := hI.cur c hc
+      exact dec_enabled N s c (by omega) (by grind) (hI.nowork c) (fun _ => Or.inr hc)
+
+/-! ## Cancel is stable (any state, not only reachable ones) -/
+
+theorem enc_cancel_stable (N : Nat) (s t : St) (h : Step encStep N s t) (hc : s.ctr = none) :
+    t.ctr = none ∧ (∀ i, (t.pc i = .crit ∨ t.pc i = .io) → (s.pc i = .crit ∨ s.pc i = .io)) ∧
+      t.log.length ≤ s.log.length + 1 := by
+  obtain ⟨e, _, he⟩ := h
+  cases e <;> simp only [encStep, hc, cas] at he
+  all_goals repeat' split at he
+  all_goals cases he
+  all_goals refine ⟨?_, ?_, ?_⟩ <;> (try simp only [upd]) <;> grind
+
+theorem dec_cancel_stable (N : Nat) (s t : St) (h : Step decStep N s t) (hc : s.ctr = none) :
+    t.ctr = none ∧ (∀ i, (t.pc i = .crit ∨ t.pc i = .io) → (s.pc i = .crit ∨ s.pc i = .io)) := by
+  obtain ⟨e, _, he⟩ := h
+  cases e <;> simp only [decStep, hc, cas] at he
+  all_goals repeat' split at he
+  all_goals cases he
+  all_goals refine ⟨?_, ?_⟩ <;> (try simp only [upd]) <;> grind
+
+/-! ## Failure reporting -/
+
+theorem firstFailed_isSome (N : Nat) (f : Nat → Bool) :
+    (firstFailed N f).isSome ↔ ∃ i, i < N ∧ f i = true := by
+  induction N with
+  | zero => simp [firstFailed]
+  | succ n ih =>
+    simp only [firstFailed]
+    cases hff : firstFailed n f with
+    | some k =>
+      rw [hff] at ih
+      obtain ⟨i, hi, hfi⟩ := ih.1 rfl
+      simp only [Option.isSome_some, true_iff]
+      exact ⟨i, by omega, hfi⟩
+    | none =>
+      rw [hff] at ih
+      simp only
+      constructor
+      · intro h
+        split at h
+        · exact ⟨n, by omega, by assumption⟩
+        · cases h
+      · rintro ⟨i, hi, hfi⟩
+        by_cases hin : i = n
+        · subst hin; simp [hfi]
+        · have := ih.2 ⟨i, by omega, hfi⟩
+          cases this
+
+theorem firstFailed_spec (N : Nat) (f : Nat → Bool) (i : Nat) (h : firstFailed N f = some i) :
+    i < N ∧ f i = true ∧ ∀ j, j < i → f j = false := by
+  induction N with
+  | zero => cases h
+  | succ n ih =>
+    simp only [firstFailed] at h
+    cases hff : firstFailed n f with
+    | some k =>
+      rw [hff] at h
+      cases h
+      obtain ⟨h1, h2, h3⟩ := ih hff
+      exact ⟨by omega, h2, h3⟩
+    | none =>
+      rw [hff] at h
+      simp only at h
+      split at h
+      · cases h
+        rename_i hfn
+        refine ⟨by omega, hfn, ?_⟩
+        intro j hj
+        have hn : ¬ (firstFailed i f).isSome := by rw [hff]; simp
+        rw [firstFailed_isSome] at hn
+        cases hfj : f j with
+        | false => rfl
+        | true => exact absurd ⟨j, hj, hfj⟩ hn
+      · cases h
+
+/-! ## The trace runner only follows `Step` -/
+
 theorem runTrace_sound (step : St → Ev → Option St) (init : St) (N : Nat) (s t : St) (es : List Ev)
-    (hs : Reach step init N s) (h : runTrace step N s es = some t) : Reach step init N t := by sorry
+    (hs : Reach step init N s) (h : runTrace step N s es = some t) : Reach step init N t := by
+  induction es generalizing s with
+  | nil => simp only [runTrace] at h; cases h; exact hs
+  | cons e es ih =>
+    simp only [runTrace] at h
+    split at h
+    · cases hse : step s e with
+      | none => rw [hse] at h; cases h
+      | some u =>
+        rw [hse] at h
+        exact ih u (Reach.step hs ⟨e, by assumption, hse⟩) h
+    · cases h
+
+/-! ## Non-vacuity: concrete runs of the model -/
+
+/-- an interleaved failure-free encode run of 3 tasks (task 2 and 1 load first and spin) -/
+def exEncOk : List Ev :=
+  [.load 2 (some 0), .load 1 (some 0), .load 0 (some 0), .ioBegin 0, .load 2 (some 0), .ioEnd 0,
+   .dpub 0, .load 1 (some 1), .exit 0, .ioBegin 1, .load 2 (some 1), .ioEnd 1, .dpub 1, .exit 1,
+   .load 2 (some 2), .ioBegin 2, .ioEnd 2, .dpub 2, .exit 2]
+
+def pcsDone (N : Nat) (s : St) : Bool := (List.range N).all (fun i => s.pc i == .done)
+
+example : (runTrace encStep 3 encInit exEncOk).map (·.log) = some [1, 2, 3] := by decide
+example : (runTrace encStep 3 encInit exEncOk).map (·.ctr) = some (some 3) := by decide
+example : (runTrace encStep 3 encInit exEncOk).map (pcsDone 3) = some true := by decide
+example : (runTrace encStep 3 encInit exEncOk).map (fun s => firstFailed 3 s.failed) = some none := by
+  decide
+/-- the final state of that run is reachable, so the theorems apply to it -/
+example : ∃ s, runTrace encStep 3 encInit exEncOk = some s ∧ Reach encStep encInit 3 s := by
+  cases h : runTrace encStep 3 encInit exEncOk with
+  | none => exact absurd (congrArg Option.isSome h) (by decide)
+  | some s => exact ⟨s, rfl, runTrace_sound _ _ _ _ _ _ .init h⟩
+
+/-- task 1 fails while holding the token; task 2 (already spinning) sees the cancel value -/
+def exEncFail : List Ev :=
+  [.load 0 (some 0), .ioBegin 0, .ioEnd 0, .dpub 0, .exit 0, .load 1 (some 1), .ioBegin 1,
+   .load 2 (some 1), .ioFail 1, .load 2 (some 1), .cancel 1, .load 2 none, .dpub 2, .exit 2, .exit 1]
+
+example : (runTrace encStep 3 encInit exEncFail).map (·.log) = some [1] := by decide
+example : (runTrace encStep 3 encInit exEncFail).map (·.ctr) = some none := by decide
+example : (runTrace encStep 3 encInit exEncFail).map (pcsDone 3) = some true := by decide
+example : (runTrace encStep 3 encInit exEncFail).map (fun s => firstFailed 3 s.failed) = some (some 1) := by
+  decide
+example : (runTrace encStep 3 encInit exEncFail).map (fun s => s.critFail 1) = some true := by decide
+/-- after the failure task 2 cannot acquire the token: this event is not an enabled transition -/
+example : (runTrace encStep 3 encInit
+    [.load 0 (some 0), .ioBegin 0, .ioEnd 0, .dpub 0, .load 1 (some 1), .ioFail 1, .cancel 1,
+     .load 2 (some 2)]).isNone = true := by decide
+/-- events of tasks outside the batch are rejected -/
+example : (runTrace encStep 3 encInit [.load 3 (some 0)]).isNone = true := by decide
+
+/-- decode, 3 tasks: frame 1 and 2 are read, task 2 finds the end marker -/
+def exDecEos : List Ev :=
+  [.load 1 (some 0), .load 0 (some 0), .ioBegin 0, .ioEnd 0, .pub 0, .load 1 (some 1), .postDone 0,
+   .ioBegin 1, .ioEnd 1, .dpub 0, .pub 1, .load 2 (some 2), .ioBegin 2, .ioEos 2, .fail 1, .exit 0,
+   .cancel 2, .cancel 1, .exit 1, .exit 2]
+
+example : (runTrace decStep 3 decInit exDecEos).map (·.log) = some [1, 2] := by decide
+example : (runTrace decStep 3 decInit exDecEos).map (·.ctr) = some none := by decide
+example : (runTrace decStep 3 decInit exDecEos).map (pcsDone 3) = some true := by decide
+example : (runTrace decStep 3 decInit exDecEos).map (fun s => (s.eos 2, firstFailed 3 s.failed)) =
+    some (true, some 1) := by decide
+
+/-- decode, failure-free run of 2 tasks -/
+def exDecOk : List Ev :=
+  [.load 0 (some 0), .ioBegin 0, .load 1 (some 0), .ioEnd 0, .pub 0, .load 1 (some 1), .ioBegin 1,
+   .postDone 0, .ioEnd 1, .pub 1, .dpub 0, .postDone 1, .dpub 1, .exit 1, .exit 0]
+
+example : (runTrace decStep 2 decInit exDecOk).map (·.log) = some [1, 2] := by decide
+example : (runTrace decStep 2 decInit exDecOk).map (·.ctr) = some (some 2) := by decide
+example : (runTrace decStep 2 decInit exDecOk).map (pcsDone 2) = some true := by decide
 
 end Kanzi.Protocol
